@@ -152,6 +152,10 @@ def fill_op(op, net):
         op["cs"] = tuple_set(net)
     if k == "create_continuous_elements_index" and "order" not in op:
         op["order"] = []          # filled by apply_op: the tables in the order the running code visits them
+    if k == "select_subnet":
+        # a net whose (empty) pipe table was removed by remove_unused_components still has pipe_geodata
+        import pandas as pd
+        op["pipe_table_removed"] = (not isinstance(net.get("pipe", None), pd.DataFrame)) and "pipe_geodata" in net
     if k == "reindex_junctions":
         op["element"] = "junction"
     if k == "reindex_pipes":
@@ -436,7 +440,8 @@ def duplicate_labels(snap):
 
 def modelled(op):
     """operations / option combinations that coq/C17/Model.v covers (the others are judged by the Python oracle only)"""
-    return True
+    # select_subnet on a net without pipe table but with pipe_geodata raises (known finding): not in the Coq model
+    return not (op["op"] == "select_subnet" and op.get("pipe_table_removed"))
 
 
 # --------------------------------------------------------------------------- everything else a net carries
